@@ -433,31 +433,47 @@ pub fn case(ctx: &mut Ctx, idx: u64) {
         let gm = spec.mods.to_gamemods(m);
         if let (Ok(Ok(attrs)), Ok(Ok(conv))) = (guard(|| api::calc_for_mode(&d, &map, m)), guard(|| api::convert(&map, m, &gm))) {
             let b = bracket("attributes::build", || conv.attributes().difficulty(&d).build());
-            ctx.eval();
-            ctx.count("A6_checks");
-            let pairs: Vec<(&str, f64, f64)> = match &attrs {
-                DifficultyAttributes::Osu(a) => vec![
-                    ("ar", a.ar, b.ar),
-                    ("hp", a.hp, b.hp),
-                    ("great_hit_window", a.great_hit_window, b.hit_windows.od_great),
-                    ("ok_hit_window", a.ok_hit_window, b.hit_windows.od_ok.unwrap_or(f64::NAN)),
-                    ("meh_hit_window", a.meh_hit_window, b.hit_windows.od_meh.unwrap_or(f64::NAN)),
-                    ("od()", a.od(), b.od),
-                ],
-                DifficultyAttributes::Taiko(a) => vec![
-                    ("great_hit_window", a.great_hit_window, b.hit_windows.od_great),
-                    ("ok_hit_window", a.ok_hit_window, b.hit_windows.od_ok.unwrap_or(f64::NAN)),
-                ],
-                DifficultyAttributes::Catch(a) => vec![("ar", a.ar, b.ar)],
-                DifficultyAttributes::Mania(_) => vec![],
-            };
-            for (name, x, y) in pairs {
-                if x.to_bits() != y.to_bits() {
-                    ctx.violation(
-                        &format!("C17/A6/{}/{name}", mode_name(m)),
-                        &format!("difficulty attributes store {name} = {x:?}, the builder gives {y:?} | settings=[{}]", spec.describe()),
-                        Some(&mc.text),
-                    );
+            // every calculator that stores these values: the one-shot calculation, the gradual calculator on the
+            // unconverted map (first and last value) and the difficulty embedded in a performance result
+            let mut outputs: Vec<(&str, DifficultyAttributes)> = vec![("one-shot", attrs)];
+            if let Ok(Ok(mut g)) = guard(|| api::gradual(spec.without_passed().to_difficulty(m), &map, m)) {
+                if let Ok(Some(first)) = guard(|| api::g_next(&mut g)) {
+                    outputs.push(("gradual-first", first));
+                }
+                if let Ok(Some(last)) = guard(|| g.last()) {
+                    outputs.push(("gradual-last", last));
+                }
+            }
+            if let Ok(p) = guard(|| api::perf_calc(rosu_pp::Performance::new(&map).difficulty(d.clone()).mode_or_ignore(m))) {
+                outputs.push(("performance-embedded", p.difficulty_attributes()));
+            }
+            for (label, attrs) in &outputs {
+                ctx.eval();
+                ctx.count("A6_checks");
+                let pairs: Vec<(&str, f64, f64)> = match attrs {
+                    DifficultyAttributes::Osu(a) => vec![
+                        ("ar", a.ar, b.ar),
+                        ("hp", a.hp, b.hp),
+                        ("great_hit_window", a.great_hit_window, b.hit_windows.od_great),
+                        ("ok_hit_window", a.ok_hit_window, b.hit_windows.od_ok.unwrap_or(f64::NAN)),
+                        ("meh_hit_window", a.meh_hit_window, b.hit_windows.od_meh.unwrap_or(f64::NAN)),
+                        ("od()", a.od(), b.od),
+                    ],
+                    DifficultyAttributes::Taiko(a) => vec![
+                        ("great_hit_window", a.great_hit_window, b.hit_windows.od_great),
+                        ("ok_hit_window", a.ok_hit_window, b.hit_windows.od_ok.unwrap_or(f64::NAN)),
+                    ],
+                    DifficultyAttributes::Catch(a) => vec![("ar", a.ar, b.ar)],
+                    DifficultyAttributes::Mania(_) => vec![],
+                };
+                for (name, x, y) in pairs {
+                    if x.to_bits() != y.to_bits() {
+                        ctx.violation(
+                            &format!("C17/A6/{}/{name}/{label}", mode_name(m)),
+                            &format!("difficulty attributes ({label}) store {name} = {x:?}, the builder gives {y:?} | settings=[{}]", spec.describe()),
+                            Some(&mc.text),
+                        );
+                    }
                 }
             }
         }
